@@ -33,6 +33,22 @@ def register(J):
                                "callback-failed code and the parser's code reach the caller; the parser runs at most once "
                                "and only behind the gate; after a failure the caller's pointer is NULL and the object "
                                "created for the call was released exactly once."))
+    for n, fn in ((1, "econf_readDirsWithCallback"), (2, "econf_readDirs")):
+        J.append(Job("entry." + fn, ["C12", "C06", "C20", "C01"], "harness/entry_dirs.c", sources=["lib/libeconf.c"],
+                     stubs=["stubs/strdup_log.c"], contracts=["contracts/entry_dirs.h"], enforce=fn,
+                     replace=["econf_newKeyFile_with_options", "readConfigWithCallback", "econf_freeFile"],
+                     defines=["-DFN=%d" % n], unwind=8, tier="T1", timeout=600, mem_gb=8, functions=[fn],
+                     expect=[fn + r"\.postcondition\.", r"readConfigWithCallback\.precondition"],
+                     model="M-packed abstract strdup with a ghost log (stubs/strdup_log.c)",
+                     trusted=["econf_newKeyFile_with_options(.., \"\") hands out a fresh zeroed object or ECONF_NOMEM "
+                              "(assumed contract in contracts/entry_dirs.h; bounded evidence: jobs options.*)",
+                              "calloc does not fail (--no-malloc-may-fail): the entry points do not check it"],
+                     statement="C12/C01: the two-directory entry point builds the layer list (distribution dir or \"\", "
+                               "/etc dir or \"\") in that order, no options, and hands name, suffix, delimiters, comment "
+                               "set, the process-wide drop-in list and callback/data unchanged to readConfigWithCallback "
+                               "(contract proved by job rcwc, REPLACED here); C06/C20: its code is returned; after a "
+                               "failure nothing is handed back, the placeholder object and a partial merge result are "
+                               "released exactly once."))
     for n, fn in enumerate(["econf_requireOwner", "econf_requireGroup", "econf_requirePermissions",
                             "econf_followSymlinks", "econf_reset_security_settings"], 1):
         J.append(Job("security." + fn, ["C16", "C18"], "harness/security.c", sources=["lib/libeconf.c"],
